@@ -436,6 +436,33 @@ package meta
 //@   after call SearchAt: ghost viaNFA = true
 //@   ensures old(e.longest) ==> viaNFA
 
+// the digit-prefilter strategy verifies candidates with the anchored (leftmost-first) DFA: in longest mode it has to
+// hand over to the NFA path before doing so
+//@ func (*Engine).findIndicesDigitPrefilter
+//@   props C10
+//@   opt safety=off
+//@   requires e != nil
+//@   modifies @searchState
+//@   ghost viaNFA = false
+//@   after call findIndicesNFA: ghost viaNFA = true
+//@   ensures old(e.longest) ==> viaNFA
+//@ func (*Engine).findIndicesDigitPrefilterAt
+//@   props C10
+//@   opt safety=off
+//@   requires e != nil
+//@   modifies @searchState
+//@   ghost viaNFA = false
+//@   after call findIndicesNFAAt: ghost viaNFA = true
+//@   ensures old(e.longest) ==> viaNFA
+//@ func (*Engine).findIndicesDigitPrefilterAtWithState
+//@   props C10
+//@   opt safety=off
+//@   requires e != nil
+//@   modifies @searchState
+//@   ghost viaNFA = false
+//@   after call findIndicesNFAAtWithState: ghost viaNFA = true
+//@   ensures old(e.longest) ==> viaNFA
+
 // ---- C01: the boolean dispatch layer, relative to ASSUMED leaf contracts (each engine decides the reference: pvFoundAt,
 // btFound, named by uninterpreted functions and linked to the engine's reference by leafOK) and the ASSUMED prefilter link
 // (every match starts at a prefilter candidate: C17 for the engine's literal set) ----
@@ -545,6 +572,16 @@ package meta
 //@   modifies @searchState
 //@   ensures result2 == refFound(e, e.longest, haystack, 0)
 //@   ensures result2 ==> result0 == refStart(e, e.longest, haystack, 0) && result1 == refEnd(e, e.longest, haystack, 0)
+//@ trusted func (*Engine).findIndicesNFAAt
+//@   requires leafOK(e) && 0 <= at
+//@   modifies @searchState
+//@   ensures at <= len(haystack) ==> result2 == refFound(e, e.longest, haystack, at)
+//@   ensures result2 ==> result0 == refStart(e, e.longest, haystack, at) && result1 == refEnd(e, e.longest, haystack, at)
+//@ trusted func (*Engine).findIndicesNFAAtWithState
+//@   requires leafOK(e) && 0 <= at && state != nil
+//@   modifies @searchState
+//@   ensures at <= len(haystack) ==> result2 == refFound(e, e.longest, haystack, at)
+//@   ensures result2 ==> result0 == refStart(e, e.longest, haystack, at) && result1 == refEnd(e, e.longest, haystack, at)
 //@ trusted func (*Engine).findIndicesNFA
 //@   requires leafOK(e)
 //@   modifies @searchState
